@@ -14,7 +14,7 @@ import attrs
 import click
 
 from .exceptions import GWFError
-from .utils import is_valid_name, timer
+from .utils import dump_json_atomically, is_valid_name, timer
 
 logger = logging.getLogger(__name__)
 
@@ -132,8 +132,7 @@ class FileSpecHashes:
             pass
 
     def close(self):
-        with open(self.path, "w") as hashes_file:
-            json.dump(self.hashes, hashes_file)
+        dump_json_atomically(self.hashes, self.path)
 
     def __enter__(self):
         return self
